@@ -168,6 +168,29 @@ def zero_pad(b):
     return out
 
 
+_WORDS = {b'dat', b'mov', b'add', b'sub', b'mul', b'div', b'mod', b'jmp', b'jmz', b'jmn', b'djn', b'cmp', b'seq', b'sne', b'slt', b'spl', b'nop',
+          b'equ', b'org', b'end', b'for', b'rof'}
+
+
+def meta_after_label(b):
+    """the same text with its leading ;name / ;author / ;strategy lines moved behind the first line that holds only
+    labels (names, with or without a colon): metadata comments count wherever they stand.  None if there is no such line."""
+    import re
+    t = bytes(b)
+    lines = t.split(b'\n')
+    k = 0
+    while k < len(lines) and re.match(rb'^;(name|author|strategy)\b', lines[k], re.I):
+        k += 1
+    if k == 0:
+        return None
+    for i in range(k, len(lines) - 1):
+        ws = lines[i].split()
+        if ws and all(re.match(rb'^[A-Za-z_][A-Za-z0-9_]*:?$', w) and w.rstrip(b':').lower() not in _WORDS for w in ws):
+            out = lines[k:i + 1] + lines[:k] + lines[i + 1:]
+            return list(b'\n'.join(out))
+    return None
+
+
 class AsmPlan(Plan):
     two_stage = True
     tie = ASM_TIE
@@ -189,6 +212,9 @@ class AsmPlan(Plan):
                 padded = zero_pad(r[1:])
                 if padded != r[1:]:
                     out.append(' '.join(str(x) for x in [10] + cfg + padded))
+                moved = meta_after_label(r[1:])
+                if moved is not None:
+                    out.append(' '.join(str(x) for x in [10] + cfg + moved))
         return out
 
     def judge(self, ints, spec, idx, conc, impl):
@@ -208,7 +234,11 @@ class AsmPlan(Plan):
         got = find(impl, 71)
         if got is None or got[1:] != exp[2:]:
             return 'assembled-code-differs-from-what-the-program-denotes'
-        if self.check_meta and idx == 0:
+        with_meta = idx == 0
+        if self.pad_numbers and idx > 0:
+            r60 = find(spec, 60)
+            with_meta = r60 is not None and list(conc[9:]) == meta_after_label(r60[1:])
+        if self.check_meta and with_meta:
             for (a, b, what) in ((63, 72, 'name'), (64, 73, 'author')):
                 e = find(spec, a)
                 g = find(impl, b)
@@ -296,7 +326,7 @@ class C03(AsmPlan):
     tie_name = 'CompileWarrior on rendered programs: gmars vs the extracted lexer/scanner/expander/parser/compiler model'
     rule = ('abstract programs (labels, EQU names incl. forward uses and textual substitution, predefined constants, omitted modes / modifiers / second operands, ORG / END, name / author) '
             'generated by construction, rendered by the extracted renderer under a random style (letter case, blanks and tabs, blank and comment lines, colon suffixes, labels on their own line, naming scheme, EQU placement), '
-            'both dialects, core sizes 80 / 8000 / 8192 / 55440 / 2^33+9; each program additionally with its decimal literals written with leading zeros; expected result = extracted Meaning; non-trivial = the program assembles')
+            'both dialects, core sizes 80 / 8000 / 8192 / 55440 / 2^33+9; each program additionally with its decimal literals written with leading zeros, and with its ;name / ;author / ;strategy lines moved behind a line of labels; expected result = extracted Meaning; non-trivial = the program assembles')
 
     def gens(self, tier):
         k = {'quick': 1, 'search': 1}.get(tier, 25)
